@@ -27,6 +27,7 @@ import numpy as np
 
 from ..common import Ctx, clist, cnat, copt, cq
 
+LEVEL = "proof"
 UPS = [1, 2, 3, 4, 8, 16, 64]
 SHAPES = [(8, 8), (9, 9), (12, 16), (15, 20), (16, 16), (21, 13), (24, 24), (20, 31), (32, 32), (17, 17)]
 TOL_EXACT_NP = 1e-9       # float64 rounding of the FFTs / parabolas (measured <= 1e-12)
@@ -126,10 +127,16 @@ def run_torch(ref, im, up, mode="real", dtype="float64"):
 
 
 def run_est(case, ref, im):
-    if case["est"] == "numpy":
-        return run_numpy(ref, im, case["up"], case.get("ms"), case.get("fft_in", False),
-                         case.get("rsi", False), case.get("fft_out", False))
-    return run_torch(ref, im, case["up"], case.get("mode", "real"), case.get("dtype", "float64"))
+    """the estimator's answer; an exception raised by the implementation is part of its observable
+    behaviour (reported by the oracle as a non-finite result with the message attached)"""
+    try:
+        if case["est"] == "numpy":
+            return run_numpy(ref, im, case["up"], case.get("ms"), case.get("fft_in", False),
+                             case.get("rsi", False), case.get("fft_out", False))
+        return run_torch(ref, im, case["up"], case.get("mode", "real"), case.get("dtype", "float64"))
+    except Exception as e:  # noqa: BLE001
+        case["_raised"] = "%s: %s" % (type(e).__name__, str(e)[:200])
+        return [float("nan"), float("nan")], None
 
 
 # --------------------------------------------------------------------------- the property oracle
@@ -157,6 +164,9 @@ def oracle(case, ref, im, res, img, res_swap):
     s = case["shift"]
     bad = []
     cls = up_class(case)
+    if "_raised" in case:
+        return [("%s-raised" % cls, "the estimator raised %s (shape %s, shift %s, upsample_factor %d)"
+                 % (case["_raised"], (M, N), s, case["up"]))]
     if not all(math.isfinite(v) for v in res):
         return [("%s-nonfinite" % cls, "returned shift %s is not finite" % (res,))]
     tol = tol_for(case)
@@ -307,7 +317,7 @@ def gen_cases(ctx: Ctx):
             cases.append(one("numpy", "zero", up, shape))
             if up in (1, 3, 4, 16):
                 cases.append(one("torch", "zero", up, shape))
-    n = ctx.budget(260, 6000)
+    n = ctx.budget(220, 4500)
     for _ in range(n):
         est = r.choice(["numpy", "numpy", "torch"])
         kind = r.choice(["int", "int", "sub", "sub", "sub", "half-size", "zero", "wrap"])
@@ -335,6 +345,8 @@ def run_case(case):
     sw["rsi"] = False
     sw["fft_out"] = False
     res_swap, _ = run_est(sw, im, ref)
+    if "_raised" in sw and "_raised" not in case:
+        case["_raised"] = "(images swapped) " + sw["_raised"]
     return ref, im, res, img, res_swap
 
 
@@ -342,8 +354,29 @@ def public(case):
     return {k: v for k, v in case.items() if not k.startswith("_")}
 
 
+def corpus_cases():
+    """regression inputs that always run first: the concrete inputs of the two defects found by
+    this check (both repaired in /repo) and the seam / half-size corner cases"""
+    from ..common import VERIF
+    out = []
+    d = VERIF / "corpus" / "C13"
+    for f in sorted(d.glob("*.json")) if d.is_dir() else []:
+        try:
+            rp = json.loads(f.read_text())
+        except Exception:  # noqa: BLE001
+            continue
+        if isinstance(rp.get("case"), dict):
+            c = dict(rp["case"])
+            c["_corpus"] = f.name
+            out.append(c)
+    return out
+
+
 def check_oracle(ctx: Ctx):
-    cases = gen_cases(ctx)
+    corpus = corpus_cases()
+    for c in corpus:
+        ctx.dist("oracle/corpus")
+    cases = corpus + gen_cases(ctx)
     worst = {}
     nbad = 0
     for case in cases:
@@ -541,7 +574,7 @@ def gen_corr_cases(ctx: Ctx):
             add("numpy", "bl", kind, up, ms=True)
             cases[-1]["ms"] = math.floor((admit_radius(cases[-1]) + 0.25) * 1024 + 1) / 1024.0
             cases[-1]["ms_kind"] = "tight"
-    for _ in range(ctx.budget(40, 600)):
+    for _ in range(ctx.budget(32, 420)):
         est = r.choice(["numpy", "torch"])
         kind = r.choice(["int", "int", "sub", "sub", "zero"])
         add(est, "int" if (kind != "sub" and r.random() < 0.7) else "bl", kind, r.choice(ups_val),
@@ -549,8 +582,8 @@ def gen_corr_cases(ctx: Ctx):
     return cases
 
 
-def check_correspondence(ctx: Ctx):
-    cases = gen_corr_cases(ctx)
+def check_correspondence(ctx: Ctx, cases=None):
+    cases = gen_corr_cases(ctx) if cases is None else cases
     exprs, meta = [], []
     for case in cases:
         M, N, up = case["M"], case["N"], case["up"]
@@ -670,8 +703,10 @@ def check_correspondence(ctx: Ctx):
                           "model and implementation disagree (%s) on %s" % ("; ".join(problems), public(case)),
                           {"kind": "corr", "case": public(case), "impl": res, "model": mres, "oracle": [b[1] for b in obad]},
                           found_input=bool(obad))
-    ctx.sample({"kind": "corr", "case": public(meta[len(meta) // 2]["case"]), "impl": meta[len(meta) // 2]["res"]})
+    if meta:
+        ctx.sample({"kind": "corr", "case": public(meta[len(meta) // 2]["case"]), "impl": meta[len(meta) // 2]["res"]})
     ctx.log("shift correspondence: %d cases, %d disagreements" % (len(meta), nd))
+    return nd
 
 
 def check_coordinates(ctx: Ctx):
@@ -773,7 +808,8 @@ def run(ctx: Ctx):
     ctx.cov["rule"] = (
         "oracle cases: (estimator numpy|torch, band-limited image seed, shape from 10 odd/even/non-square shapes, "
         "shift kind zero|integer anywhere in [-n, 2n]|half the size|dyadic sub-pixel (denominators 2..64) anywhere in "
-        "the cell, upsample_factor in {1,2,3,4,8,16,64}, fft_input, return_shifted_image, fft_output, max_shift | "
+        "the cell|around the seam -n/2 of the centred cell, upsample_factor in {1,2,3,4,8,16,64}, fft_input, "
+        "return_shifted_image, fft_output, max_shift tight (admits the peak, masks a neighbour)|roomy|huge | "
         "torch entry point real/Fourier, dtype); each is also run with the images swapped. Correspondence cases: "
         "integer-valued and band-limited images on 7 small shapes, the Coq model fed with the exact (integer) or "
         "2^-40-quantised correlation array and the captured upsampled window; coordinate cases: (shape, factor, peak "
@@ -785,14 +821,23 @@ def run(ctx: Ctx):
         "compared for the window is WHERE it samples (measured through the kernels' linear response) and every "
         "arithmetic step that consumes it",
         "sub-pixel accuracy (<= 1/upsample_factor) is validated on the implementation for band-limited images with "
-        "Gaussian-decaying spectra; the theorem C13_subpixel_accuracy_partial needs the unimodality hypothesis",
+        "Gaussian-decaying spectra; C13_subpixel_accuracy_partial only proves 'position of the largest window sample "
+        "+ at most half an upsampled pixel'",
+        "torch builds its upsampling kernels in complex64: 'exact' for the torch estimator with upsample_factor > 2 "
+        "means within 2e-4 pixel (float64 images) / 2e-3 (float32 images)",
+        "max_shift settings in the quantified domain are those that admit the applied shift (radius of the coarse-peak "
+        "pixel < max_shift); masks that exclude the peak are outside the claim",
+        "swap clause for sub-pixel shifts is checked up to twice the accuracy tolerance (each call is within tolerance "
+        "of +-shift); exactly for integer shifts, modulo the size at the half-size seam",
     ]
     ctx.cov["trusted_base"] += [
         "Coq 8.16.1 kernel incl. vm_compute (used to run the model); no native_compute",
         "hand-written model coq/model/C13_Model.v tied to /repo by this correspondence run",
         "harness/props/C13.py (generators, exact Fourier shift, quantisation, monkey-patch capture, Python->Coq printers), harness/common.py",
-        "section hypotheses of lib/DFT.v (root of unity, orthogonality; satisfiable: DFT_Inst.v) and the order hypotheses "
-        "ord_ok of proof/C13_Proofs.v (satisfiable: C13_nonvacuous_*)",
+        "section hypotheses of lib/DFT.v / proof/C13_Proofs_DFT.v, explicit premises of the closed theorems: root of "
+        "unity + orthogonality per axis, re (conj z) == re z, the character E with E(z/N) = w(-z) (all satisfiable "
+        "together: Example C13_nonvacuous_setting); hypotheses on the image content: unique autocorrelation peak, and for "
+        "upsampling that the window has its unique maximum at the centre sample with equal neighbours (win_centred)",
     ]
     ctx.proofs_or_violation()
     check_oracle(ctx)
@@ -817,4 +862,11 @@ def replay(ctx: Ctx, path):
         print("FAILS [%s]: %s" % (k, msg))
     if not bad:
         print("property holds on this case")
-    return 1 if bad else 0
+    nd = 0
+    if rp.get("kind") == "corr":
+        # both sides: the Coq model on the correlation array / window of this very case
+        print("model vs implementation on this case:")
+        nd = check_correspondence(ctx, [dict(case)])
+        if not nd:
+            print("model and implementation agree on this case")
+    return 1 if (bad or nd) else 0
